@@ -2,7 +2,7 @@
     repaired model's prediction IS the executable spec's, so a case on which the
     implementation agrees with the repaired model satisfies the spec (and conversely). *)
 From Coq Require Import List String NArith Bool Lia.
-From DH Require Import Lib.CheckLib Model.Parser Proofs.ParserProofs Check.C15Check.
+From DH Require Import Lib.CheckLib Model.Parser Proofs.ParserProofs Proofs.ParserFuel Check.C15Check.
 Import ListNotations.
 
 Lemma run_stream_fixed_spec ts eof : run_stream fixed ts eof = run_spec ts eof.
@@ -45,4 +45,20 @@ Proof.
     destruct (parse_txn fixed (fuel_for (c_toks c)) (c_toks c)); cbn; congruence.
   - apply andb_true_iff in H. destruct H as [H _].
     apply obs_matches_outcome in H. rewrite H. apply S.
+Qed.
+
+(** the fuel the evaluator gives the model, [S (length tokens)], is enough: no prediction of any
+    variant is the artefact [Fuel] (outcome code 7) *)
+Theorem run_stream_no_fuel v ts eof : fst (fst (run_stream v ts eof)) <> 7%N.
+Proof.
+  unfold run_stream, fuel_for.
+  pose proof (parse_stream_enough v (S (List.length ts)) eof ts ltac:(lia)) as P.
+  destruct (parse_stream v (S (List.length ts)) eof ts) as [[es o] ns]. cbn in *.
+  destruct o; cbn; congruence.
+Qed.
+Theorem run_txn_no_fuel v ts : fst (fst (run_txn v ts)) <> 7%N.
+Proof.
+  unfold run_txn, fuel_for.
+  pose proof (parse_txn_enough v (S (List.length ts)) ts ltac:(lia)) as P.
+  destruct (parse_txn v (S (List.length ts)) ts); cbn; congruence.
 Qed.
